@@ -68,6 +68,7 @@ type Manager struct {
 	exec      Executor
 	triggerCh chan string
 	maxRuns   int
+	verif     verifState
 }
 
 // NewManager creates a compaction manager for the supplied executor.
@@ -124,6 +125,9 @@ func (cm *Manager) Start(id int, closeCh <-chan struct{}, done func()) {
 
 func (cm *Manager) runCycle(id int, reason string) {
 	_ = reason
+	if cm.verifPaused() {
+		return
+	}
 	maxRuns := cm.maxRuns
 	ranAny := false
 	for range maxRuns {
